@@ -612,10 +612,10 @@ for reg, rn in ((0, 'npc'), (1, 'eqr'), (2, 'spc')):
         sfx = '%s_%s' % (rn, 'neg' if neg else 'pos')
         for image in ((1,) if reg == 1 else (0, 1)):
             _c17.append(H('c17_proj_%s%s' % ('' if image else 'basic_', sfx), 'k_c17_proj(%d, %s, %s);' % (reg, 'true' if neg else 'false', 'true' if image else 'false'),
-                          tiers=(Q if (reg == 1 or not image) else T), timeout=3600, mem_gb=6, unwind=3, stubs=_LIBM,
+                          tiers=(Q if (reg == 1 or not image) else X), timeout=5400, mem_gb=6, unwind=3, stubs=_LIBM,
                           inputs=[('lon', 'f64'), ('lat', 'f64')], replay='c17_native', covers=['second turn', 'pole or equator'],
                           domain='proj: every double lon %s in [-25.2, 25.2], every lat of the %s region: range, sign%s' % ('< 0' if neg else '>= 0', rn, ', image facets' if image else '')))
-        _c17.append(H('c17_proj_formula_' + sfx, 'k_c17_proj_formula(%d, %s);' % (reg, 'true' if neg else 'false'), tiers=(Q if reg == 1 else T), timeout=(2400 if reg == 1 else 5400), mem_gb=6, unwind=3,
+        _c17.append(H('c17_proj_formula_' + sfx, 'k_c17_proj_formula(%d, %s);' % (reg, 'true' if neg else 'false'), tiers=(Q if reg == 1 else X), timeout=(2400 if reg == 1 else 5400), mem_gb=6, unwind=3,
                       stubs=_LIBM + [('crate::pm1_offset_decompose', 'crate::verif_c17::stub_pm1_offset_decompose')], inputs=[('lon', 'f64'), ('lat', 'f64')], replay='c17_native',
                       covers=['second turn'] + (['polar product clause reached'] if reg != 1 else []),
                       domain='proj, %s region, lon %s: x, y are the Calabretta-Roukema expressions of (pm1, offset, lat) for ANY (pm1, offset) allowed by the decomposition contract' % (rn, '< 0' if neg else '>= 0')))
@@ -648,7 +648,9 @@ PROPS['C17'] = dict(
     functions=['proj', 'unproj', 'abs_sign_decompose', 'pm1_offset_decompose', 'proj_cea', 'proj_collignon', 'deproj_cea', 'deproj_collignon',
                'apply_offset_and_signs', 'check_lat', 'check_y', 'base_cell_from_proj_coo', 'ensures_x_is_positive'],
     bounds={'all': 'every double in the stated domains (|lon| <= 25.2); no loops'},
-    outside='quick tier: the image clause of proj in the polar caps (guarantee I used by the plane-cut harnesses of C03 / C11 / C19) and the polar reference clause run in the thorough tier only (25+ min each); '
+    outside='NOT decided by a registered command: in the polar caps, the image clause of proj (|x - column centre| <= 2 - |y|, guarantee I assumed by the plane-cut harnesses of C03 / C11 / C19) and the reference '
+            'expressions x = pm1 t + offset, |y| = 2 - t: both need the monotonicity / a second copy of a 53x53 float multiplier and were undecided after 40 min per harness (c17_proj_{npc,spc}_*, c17_proj_formula_{npc,spc}_*: tier extended); '
+            'in the polar caps the registered tiers decide range, sign and the side of the column centre; '
             'the two round trips within 1e-14 are NOT decided by the solver (they depend on the accuracy of the actual libm, not on a contract): they are evaluated '
             'only by the native oracle when a counter-example is replayed; base_cell_from_proj_coo vs. the depth-0 hash likewise',
     assumptions=_LIBM_ASSUME,
